@@ -5,7 +5,7 @@ defect3: the attribute-equality join looks the LAST attribute name of a chain up
 (JOIN MarkerDAO ON MarkerDAO.target_id = WrapperDAO.target_id), because Wrapper happens to have a reference of the
 same name as the one the chain ends with.
 
-Run:  cd /tmp/hunt2/C07 && PYTHONPATH=/tmp/hunt2/C07/src:/tmp/hunt2/C07 /venv/bin/python HUNT/defect3.py
+Run:  cd /tmp/hunt2/C07 && PYTHONPATH=/repo/src:/tmp/hunt2/C07 /venv/bin/python HUNT/defect3.py
 Exits non-zero when the translated statement and the in-memory evaluation disagree (the defect is present).
 """
 import importlib, os, sys, tempfile, warnings
